@@ -24,6 +24,8 @@ pub enum State {
     TestRunning,
     TestPaused,
     TestFinished,
+    /// `launch` answered, `configurationDone` not sent yet
+    TestLaunched,
 }
 
 #[derive(Clone, Copy, Debug, PartialEq, Eq, Hash)]
@@ -39,12 +41,13 @@ pub enum Action {
     DapDisconnectKeep,
 }
 
-pub const STATES: [State; 5] = [
+pub const STATES: [State; 6] = [
     State::NoDebugger,
     State::AttachedIdle,
     State::TestRunning,
     State::TestPaused,
     State::TestFinished,
+    State::TestLaunched,
 ];
 
 pub fn orders(state: State) -> Vec<(&'static str, Vec<Action>)> {
@@ -222,8 +225,10 @@ pub fn run_history(bin: &str, dir: &Path, port: u16, state: State, actions: &[Ac
         if state != State::AttachedIdle {
             let s = send_dap(&mut tcp, "launch", json!({"workspace": dir.display().to_string(), "testRunner": {"testCaseName": "t"}}));
             setup_ok &= wait_for(rx, |v| v["type"] == "response" && v["request_seq"] == s && v["success"] == true, 5000);
-            let s = send_dap(&mut tcp, "configurationDone", json!(null));
-            setup_ok &= wait_for(rx, |v| v["type"] == "response" && v["request_seq"] == s, 5000);
+            if state != State::TestLaunched {
+                let s = send_dap(&mut tcp, "configurationDone", json!(null));
+                setup_ok &= wait_for(rx, |v| v["type"] == "response" && v["request_seq"] == s, 5000);
+            }
             match state {
                 State::TestRunning => std::thread::sleep(Duration::from_millis(60)),
                 State::TestPaused => {
@@ -504,7 +509,7 @@ pub fn run(ctx: &Ctx, replay: Option<&Value>) -> i32 {
     }
     let code = ctx.finish(
         "model_checking",
-        "all client-visible shutdown histories: 5 session states (no debugger, attached idle, test running, paused, finished) x 11 orders of LSP shutdown/exit, DAP disconnect (plain and with `terminateDebuggee: false`), a debugger attaching late, closing stdin, closing the TCP connection x inter-message gap patterns, each run twice on the real `mos lsp` process (stdio + TCP); observed: exit status, exit within a 5 s horizon, debug port free afterwards, panics on stderr. A Promela model of the shutdown protocol is explored exhaustively with spin and every observed outcome must lie in the model's outcome set for that history",
+        "all client-visible shutdown histories: 6 session states (no debugger, attached idle, test launched but not started, running, paused, finished) x 11 orders of LSP shutdown/exit, DAP disconnect (plain and with `terminateDebuggee: false`), a debugger attaching late, closing stdin, closing the TCP connection x inter-message gap patterns, each run twice on the real `mos lsp` process (stdio + TCP); observed: exit status, exit within a 5 s horizon, debug port free afterwards, panics on stderr. A Promela model of the shutdown protocol is explored exhaustively with spin and every observed outcome must lie in the model's outcome set for that history",
         true,
         &[
             "timing is a finite menu of gaps (20 ms quick; 0/20/200 ms thorough); interleavings inside the real process are not controlled",
